@@ -30,6 +30,10 @@ pub struct Case {
     /// 0 whole stream in one write, 1 one byte per write, 2 the given cut offsets, 3 every frame boundary -1/0/+1
     pub mode: u8,
     pub cuts: Vec<u16>,
+    /// inbound in-flight limits: 0 defaults (16 packets / 65535 bytes), 1 one packet at a time (v3 middleware),
+    /// 2 64 bytes in flight, 3 no limits: payload chunks must get through whatever the limits are
+    #[serde(default)]
+    pub recv: u8,
 }
 
 fn fail(c: &Case, rule: &str, detail: String) -> Failure {
@@ -44,6 +48,19 @@ pub async fn run_case(c: Case) -> Result<CaseInfo, Failure> {
     cfg.v5.max_payload_buffer = c.max_buffer;
     cfg.v3.max_size = 0;
     cfg.v5.max_size = 0;
+    match c.recv % 4 {
+        1 => cfg.v3.max_receive = 1,
+        2 => {
+            cfg.v3.max_receive_size = 64;
+            cfg.v5.max_receive_size = 64;
+        }
+        3 => {
+            cfg.v3.max_receive = 0;
+            cfg.v3.max_receive_size = 0;
+            cfg.v5.max_receive_size = 0;
+        }
+        _ => {}
+    }
     let eut = Eut::start(c.role, &cfg).await;
     eut.handshake(&cfg).await;
     if eut.done().is_some() {
@@ -152,7 +169,7 @@ pub async fn run_case(c: Case) -> Result<CaseInfo, Failure> {
     eut.finish().await;
     let partial = c.pubs.iter().any(|p| matches!(p.read, ReadPlan::Abandon | ReadPlan::ReadK(_)) && p.size > 0);
     let lazy = c.pubs.iter().any(|p| matches!(p.read, ReadPlan::Lazy | ReadPlan::LazyAll) && p.deferred && p.size > 0);
-    let mut info = if inside_payload { CaseInfo::nontrivial(&(c.role, c.min_chunk, c.max_buffer.min(70_000), c.mode % 4, cuts.len().min(6), c.pubs.iter().map(|p| (size_class(p.size, c.min_chunk), p.read, p.deferred)).collect::<Vec<_>>())) } else { CaseInfo::trivial() };
+    let mut info = if inside_payload { CaseInfo::nontrivial(&(c.role, c.recv % 4, c.min_chunk, c.max_buffer.min(70_000), c.mode % 4, cuts.len().min(6), c.pubs.iter().map(|p| (size_class(p.size, c.min_chunk), p.read, p.deferred)).collect::<Vec<_>>())) } else { CaseInfo::trivial() };
     info.labels.push("connection-level");
     if partial {
         info.labels.push("conn-reader-abandons");
@@ -203,8 +220,9 @@ fn case_strategy(role: Role, thorough: bool) -> BoxedStrategy<Case> {
         prop::collection::vec(pub_strategy(thorough), 1..4),
         0u8..4,
         prop::collection::vec(any::<u16>(), 0..10),
+        prop_oneof![3 => Just(0u8), 2 => Just(1u8), 2 => Just(2u8), 1 => Just(3u8)],
     )
-        .prop_map(move |(min_chunk, max_buffer, mut pubs, mode, cuts)| {
+        .prop_map(move |(min_chunk, max_buffer, mut pubs, mode, cuts, recv)| {
             // byte-at-a-time delivery only for short streams
             let total: u32 = pubs.iter().map(|p| p.size + 12).sum();
             let mode = if mode == 1 && total > 700 { 3 } else { mode };
@@ -214,7 +232,7 @@ fn case_strategy(role: Role, thorough: bool) -> BoxedStrategy<Case> {
                     p.read = ReadPlan::Eager;
                 }
             }
-            Case { role, min_chunk, max_buffer, pubs, mode, cuts }
+            Case { role, min_chunk, max_buffer, pubs, mode, cuts, recv }
         })
         .boxed()
 }
@@ -227,11 +245,23 @@ fn fixed_cases() -> Vec<Case> {
             for deferred in [false, true] {
                 for min_chunk in [0u32, 4] {
                     for mode in [0u8, 1, 3] {
-                        out.push(Case { role, min_chunk, max_buffer: 8, pubs: vec![PubSpec { size: 12, read, deferred }, PubSpec { size: 5, read: ReadPlan::Eager, deferred: false }], mode, cuts: vec![] });
+                        out.push(Case { role, min_chunk, max_buffer: 8, pubs: vec![PubSpec { size: 12, read, deferred }, PubSpec { size: 5, read: ReadPlan::Eager, deferred: false }], mode, cuts: vec![], recv: 0 });
                     }
                     // three pieces of four bytes
-                    out.push(Case { role, min_chunk, max_buffer: 32 * 1024, pubs: vec![PubSpec { size: 12, read, deferred }, PubSpec { size: 5, read: ReadPlan::Eager, deferred: false }], mode: 2, cuts: vec![14, 18, 22] });
+                    out.push(Case { role, min_chunk, max_buffer: 32 * 1024, pubs: vec![PubSpec { size: 12, read, deferred }, PubSpec { size: 5, read: ReadPlan::Eager, deferred: false }], mode: 2, cuts: vec![14, 18, 22], recv: 0 });
                 }
+            }
+        }
+    }
+    // the same short stream under tight in-flight limits, and one payload larger than the default 65535-byte window
+    let base: Vec<Case> = out.iter().filter(|c| c.mode != 1).cloned().collect();
+    for recv in [1u8, 2, 3] {
+        out.extend(base.iter().cloned().map(|c| Case { recv, ..c }));
+    }
+    for role in Role::ALL {
+        for read in [ReadPlan::Eager, ReadPlan::Lazy, ReadPlan::EagerAll, ReadPlan::LazyAll] {
+            for (min_chunk, cut) in [(0u32, 20u16), (16, 30), (16, 9), (1024, 2000)] {
+                out.push(Case { role, min_chunk, max_buffer: 32 * 1024, pubs: vec![PubSpec { size: 70_000, read, deferred: false }, PubSpec { size: 5, read: ReadPlan::Eager, deferred: false }], mode: 2, cuts: vec![cut, 40_000], recv: 0 });
             }
         }
     }
